@@ -178,6 +178,21 @@ def print_assumptions(vrel):
     return rc, out
 
 
+def coqchk(vrel, hsh):
+    """independent re-check of a compiled property file and everything it depends on (thorough tier);
+    returns the CONTEXT SUMMARY (axioms etc.); cached on the build hash"""
+    os.makedirs(CACHE, exist_ok=True)
+    mod = "MW." + os.path.basename(vrel)[:-2]
+    cf = os.path.join(CACHE, "coqchk-%s-%s.txt" % (os.path.basename(vrel)[:-2], hsh[:24]))
+    if os.path.exists(cf):
+        return open(cf).read()
+    rc, out = sh("timeout 1500 coqchk -silent -o -Q theories MW -Q gen MWGen %s" % mod, cwd=COQ, timeout=1600)
+    i = out.find("CONTEXT SUMMARY")
+    txt = ("exit=%d\n" % rc) + (out[i:] if i >= 0 else out[-1500:])
+    open(cf, "w").write(txt)
+    return txt
+
+
 if __name__ == "__main__":
     st = build(verbose=True)
     print(json.dumps({k: v for k, v in st.items() if k != "log"}, indent=1))
